@@ -721,3 +721,111 @@ def np_canon(e):
     e = _NpCanon().visit(copy.deepcopy(e))
     ast.fix_missing_locations(e)
     return canon_ast(e)
+
+
+# ---------------------------------------------------------------- aggregations over a sequence
+class _Rename(ast.NodeTransformer):
+    def __init__(self, mapping):
+        self.m = mapping
+
+    def visit_Name(self, node):
+        if node.id in self.m:
+            return ast.copy_location(ast.Name(id=self.m[node.id], ctx=node.ctx), node)
+        return node
+
+
+def _txt(e):
+    return " ".join(ast.unparse(e).split())
+
+
+def _loop_element_forms(loop, acc, fn):
+    """body of `for v in S:` as straight-line code -> (iter text, env of substituted locals) or None"""
+    if not isinstance(loop.target, ast.Name) or loop.orelse:
+        return None
+    sl = straightline_ex(loop.body)
+    if sl["rest"] or sl["ret"] is not None:
+        return None
+    return sl
+
+
+def sum_builder(fn, name):
+    """canonical (iterable text, element text over `_c0`) when local `name` is the sum of one term per element of a sequence:
+    `name = sum(<comprehension>)` or `name = 0; for v in S: ...; name += e`.  None when not of that form."""
+    import copy
+    asg = [a for a in own_nodes(fn) if isinstance(a, ast.Assign) and len(a.targets) == 1 and isinstance(a.targets[0], ast.Name) and a.targets[0].id == name]
+    aug = [a for a in own_nodes(fn) if isinstance(a, ast.AugAssign) and isinstance(a.target, ast.Name) and a.target.id == name]
+    if len(asg) != 1:
+        return None
+    v = asg[0].value
+    if not aug and isinstance(v, ast.Call) and isinstance(v.func, ast.Name) and v.func.id == "sum" and len(v.args) == 1 and not v.keywords \
+            and isinstance(v.args[0], (ast.ListComp, ast.GeneratorExp)) and len(v.args[0].generators) == 1 and not v.args[0].generators[0].ifs \
+            and isinstance(v.args[0].generators[0].target, ast.Name):
+        g = v.args[0].generators[0]
+        elt = _Rename({g.target.id: "_c0"}).visit(copy.deepcopy(v.args[0].elt))
+        return _txt(_Inline(single_defs(fn)).visit(copy.deepcopy(g.iter))), _txt(elt)
+    if isinstance(v, ast.Constant) and v.value == 0 and len(aug) == 1 and isinstance(aug[0].op, ast.Add):
+        loop = getattr(aug[0], "_parent", None)
+        if isinstance(loop, ast.For) and isinstance(loop.target, ast.Name) and not loop.orelse and getattr(loop, "_parent", None) is fn:
+            body = [st for st in loop.body if st is not aug[0]]
+            if loop.body and loop.body[-1] is aug[0]:
+                env, ret, rest = straightline(body)
+                if not rest and ret is None:
+                    e = _SubstEnv(env).visit(copy.deepcopy(aug[0].value))
+                    e = _Rename({loop.target.id: "_c0"}).visit(e)
+                    return _txt(loop.iter), _txt(e)
+    return None
+
+
+def list_builder(fn, name):
+    """canonical (iterable text, [(count text or None, element text over `_c0`)]) when local list `name` gets, per element of a
+    sequence, a fixed pattern of entries: a comprehension (optionally with an inner `for _ in range(n)`), or
+    `name = []; for v in S: ...; name.append(e) / name.extend([e] * n) / ...`.  None when not of that form."""
+    import copy
+    asg = [a for a in own_nodes(fn) if isinstance(a, (ast.Assign, ast.AnnAssign)) and
+           ((isinstance(a, ast.Assign) and len(a.targets) == 1 and isinstance(a.targets[0], ast.Name) and a.targets[0].id == name) or
+            (isinstance(a, ast.AnnAssign) and isinstance(a.target, ast.Name) and a.target.id == name and a.value is not None))]
+    if len(asg) != 1:
+        return None
+    v = asg[0].value
+    if isinstance(v, ast.Call) and isinstance(v.func, ast.Name) and v.func.id == "list" and len(v.args) == 1 and not v.keywords:
+        v = v.args[0]
+    if isinstance(v, (ast.ListComp, ast.GeneratorExp)):
+        gens = v.generators
+        if any(g.ifs for g in gens) or not isinstance(gens[0].target, ast.Name):
+            return None
+        ren = _Rename({gens[0].target.id: "_c0"})
+        if len(gens) == 1:
+            return _txt(gens[0].iter), [(None, _txt(ren.visit(copy.deepcopy(v.elt))))]
+        if len(gens) == 2 and isinstance(gens[1].iter, ast.Call) and isinstance(gens[1].iter.func, ast.Name) and gens[1].iter.func.id == "range" \
+                and len(gens[1].iter.args) == 1:
+            inner = {n.id for n in ast.walk(gens[1].target) if isinstance(n, ast.Name)}
+            if not any(isinstance(n, ast.Name) and n.id in inner for n in ast.walk(v.elt)):
+                return _txt(gens[0].iter), [(_txt(ren.visit(copy.deepcopy(gens[1].iter.args[0]))), _txt(ren.visit(copy.deepcopy(v.elt))))]
+        return None
+    empty = (isinstance(v, ast.List) and not v.elts) or (isinstance(v, ast.Call) and isinstance(v.func, ast.Name) and v.func.id == "list" and not v.args)
+    if not empty:
+        return None
+    loops = [f for f in fn.body if isinstance(f, ast.For) and any(True for _ in grow_events(f, name))]
+    others = [n for st in fn.body if not isinstance(st, ast.For) for n, k, vv in grow_events(st, name)]
+    if len(loops) != 1 or others or not isinstance(loops[0].target, ast.Name) or loops[0].orelse:
+        return None
+    loop = loops[0]
+    # split the body into plain local assignments and growth statements
+    env = {}
+    entries = []
+    for st in loop.body:
+        gm = grow_multiset([st], name)
+        if gm:
+            for cnt, el, node in gm:
+                c2 = _SubstEnv(env).visit(copy.deepcopy(cnt)) if cnt is not None else None
+                e2 = _SubstEnv(env).visit(copy.deepcopy(el))
+                ren = _Rename({loop.target.id: "_c0"})
+                entries.append((_txt(ren.visit(c2)) if c2 is not None else None, _txt(ren.visit(e2))))
+            continue
+        if gm is None:
+            return None
+        env2, ret, rest = straightline([st], env)
+        if rest or ret is not None:
+            return None
+        env = env2
+    return _txt(loop.iter), entries
